@@ -22,15 +22,16 @@ structure Ok (D : Nat) (toks : List Tok) (st : St) : Prop where
   blank : ∀ i, st.pi ≤ i → st.pv.getD i [] = []
 
 /-- the best node remembered by `Find` corresponds to the best entries of the reference search -/
-def BRel : Option Router.Best → Spec.Best → Prop
+def BRel (D : Nat) : Option Router.Best → Spec.Best → Prop
   | none, none => True
-  | some b, some l => l = ownEntries b.methods b.nf ∧ NoNfKey b.methods
+  | some b, some l => l = ownEntries b.methods b.nf ∧ NoNfKey b.methods ∧
+      (∀ rm, b.nf = some rm → rm.pnames.length ≤ D)
   | _, _ => False
 
 /-- result relation; `st0` is the state the visit logically started from (before the node was
     entered): a miss restores it exactly -/
-def RRel (st0 : St) (x : St × Router.Res) (y : Spec.Res × Spec.Best) : Prop :=
-  BRel x.1.best y.2 ∧
+def RRel (D : Nat) (st0 : St) (x : St × Router.Res) (y : Spec.Res × Spec.Best) : Prop :=
+  BRel D x.1.best y.2 ∧
   match x.2 with
   | .hit rm => x.1.panicked = false ∧ x.1.pi = rm.pnames.length ∧ x.1.pi ≤ x.1.pv.length ∧
       ∃ mm, y.1 = .hit (entryOf mm rm) (valsOf x.1)
@@ -79,9 +80,10 @@ theorem tiList_mem {D : Nat} {here : List Tok} : ∀ {l : List Node} {n : Node},
     · exact ih hxs hm
 
 /-- (1): `nodeEnd` against `stepEnd` -/
-theorem nodeEnd_rel (m : Str) (ms : List (Str × RouteMethod)) (nf : Option RouteMethod) (op : Str)
-    (rest : Str) (st : St) (bl : Spec.Best) (hno : NoNfKey ms) (hb : BRel st.best bl) :
-    BRel (nodeEnd m ms nf op rest.isEmpty st).1.best (stepEnd m (ownEntries ms nf) rest bl).2 ∧
+theorem nodeEnd_rel (D : Nat) (m : Str) (ms : List (Str × RouteMethod)) (nf : Option RouteMethod) (op : Str)
+    (rest : Str) (st : St) (bl : Spec.Best) (hno : NoNfKey ms)
+    (hnfD : ∀ rm, nf = some rm → rm.pnames.length ≤ D) (hb : BRel D st.best bl) :
+    BRel D (nodeEnd m ms nf op rest.isEmpty st).1.best (stepEnd m (ownEntries ms nf) rest bl).2 ∧
     (nodeEnd m ms nf op rest.isEmpty st).1 = { st with best := (nodeEnd m ms nf op rest.isEmpty st).1.best } ∧
     (stepEnd m (ownEntries ms nf) rest bl).1 =
       (nodeEnd m ms nf op rest.isEmpty st).2.map (entryOf (if ms.isEmpty then routeNotFound else m)) := by
@@ -323,8 +325,8 @@ theorem anyBlock_eq (path m : Str) (apre : Str) (ams : List (Str × RouteMethod)
 /-- (4): the Any block against `anyStep` -/
 theorem any_rel (path m : Str) {D : Nat} {above : List Tok} {k pre ms nf op pc sts pa an}
     (h : tiNode D above (.mk k pre ms nf op pc sts pa an) = true)
-    (st : St) (bl : Spec.Best) (hok : Ok D (above ++ headToks k pre) st) (hb : BRel st.best bl) :
-    BRel (anyBlock path m an st).1.best
+    (st : St) (bl : Spec.Best) (hok : Ok D (above ++ headToks k pre) st) (hb : BRel D st.best bl) :
+    BRel D (anyBlock path m an st).1.best
       (anyStep m (below (.mk k pre ms nf op pc sts pa an)) (path.drop st.si) (valsOf st) bl).2 ∧
     match (anyBlock path m an st).2 with
     | some rm => HitRel (anyBlock path m an st).1 rm
@@ -359,11 +361,11 @@ theorem any_rel (path m : Str) {D : Nat} {above : List Tok} {k pre ms nf op pc s
       omega
     have hnone : st.best.isNone = bl.isNone := by
       cases hs : st.best <;> cases hl : bl <;> simp_all [BRel]
-    have hb2 : BRel (if st.best.isNone then some ⟨ams, anf, aop⟩ else st.best)
+    have hb2 : BRel D (if st.best.isNone then some ⟨ams, anf, aop⟩ else st.best)
         (if bl.isNone then some (ownEntries ams anf) else bl) := by
       rw [← hnone]
       split
-      · exact ⟨rfl, q.noNf⟩
+      · exact ⟨rfl, q.noNf, fun rm hrm => by rw [(q.nfRec rm hrm).2]; exact q.depth⟩
       · exact hb
     rw [anyBlock_eq path m apre ams anf aop apc asts apa aan st (by rw [hapc, harity]) hlt hok.np
       (hok.blank st.pi (Nat.le_refl _))]
@@ -392,5 +394,495 @@ theorem any_rel (path m : Str) {D : Nat} {above : List Tok} {k pre ms nf op pc s
       | none =>
         simp only [Option.map_none]
         refine ⟨hb2, ?_, ?_, ?_, ?_, ?_⟩ <;> first | rfl | trivial
+
+/-! ### states that differ only in the remembered best node -/
+
+def Same (a b : St) : Prop := a.si = b.si ∧ a.pi = b.pi ∧ a.pv = b.pv ∧ a.panicked = b.panicked
+
+theorem Same.refl (a : St) : Same a a := ⟨rfl, rfl, rfl, rfl⟩
+theorem Same.trans {a b c : St} (h1 : Same a b) (h2 : Same b c) : Same a c :=
+  ⟨h1.1.trans h2.1, h1.2.1.trans h2.2.1, h1.2.2.1.trans h2.2.2.1, h1.2.2.2.trans h2.2.2.2⟩
+
+theorem Same.ok {D : Nat} {toks : List Tok} {a b : St} (h : Same a b) (hb : Ok D toks b) : Ok D toks a :=
+  ⟨h.2.2.2.trans hb.np, h.2.1.trans hb.pi, by rw [h.2.2.1]; exact hb.len,
+   by intro i hi; rw [h.2.2.1]; exact hb.blank i (by rw [← h.2.1]; exact hi)⟩
+
+theorem Same.vals {a b : St} (h : Same a b) : valsOf a = valsOf b := by
+  simp [valsOf, h.2.1, h.2.2.1]
+
+theorem Same.entered {k : Kind} {pre : Str} {st0 a b : St} (h : Same a b) (hE : Entered k pre st0 b) :
+    Entered k pre st0 a := by
+  cases k with
+  | static => exact ⟨h.1.trans hE.1, h.2.1.trans hE.2.1, h.2.2.1.trans hE.2.2⟩
+  | param =>
+    obtain ⟨v, h1, h2, h3, h4, h5⟩ := hE
+    exact ⟨v, h1, h2, h.2.1.trans h3, h.1.trans h4, h.2.2.1.trans h5⟩
+  | any =>
+    obtain ⟨v, h1, h2, h3, h4, h5⟩ := hE
+    exact ⟨v, h1, h2, h.2.1.trans h3, h.1.trans h4, h.2.2.1.trans h5⟩
+
+/-- the Any block followed by the exit of the node, against `anyStep` -/
+theorem finish_any_rel (path m : Str) {D : Nat} {above : List Tok} {k pre ms nf op pc sts pa an}
+    (h : tiNode D above (.mk k pre ms nf op pc sts pa an) = true)
+    (st0 st : St) (bl : Spec.Best) (hE : Entered k pre st0 st)
+    (hok : Ok D (above ++ headToks k pre) st) (hb : BRel D st.best bl) :
+    RRel D st0 (finishNode path m k pre.length an st .any)
+      (anyStep m (below (.mk k pre ms nf op pc sts pa an)) (path.drop st.si) (valsOf st) bl) := by
+  have ha := any_rel path m h st bl hok hb
+  simp only [finishNode]
+  generalize anyBlock path m an st = x at ha
+  obtain ⟨st', r⟩ := x
+  obtain ⟨hbr, hm⟩ := ha
+  cases r with
+  | some rm =>
+    simp only at hm ⊢
+    exact ⟨hbr, hm⟩
+  | none =>
+    simp only at hm ⊢
+    obtain ⟨hmiss, hnp, hsi, hpi, hpv⟩ := hm
+    have hs : Same st' st := ⟨hsi, hpi, hpv, hnp.trans hok.np.symm⟩
+    obtain ⟨h1, h2, h3, h4, h5, h6⟩ := leave_back k pre st0 st' (hs.entered hE) hnp
+    generalize leaveOut k pre.length st' = y at h1 h2 h3 h4 h5 h6
+    obtain ⟨st'', r''⟩ := y
+    simp only at h1 h2 h3 h4 h5 h6
+    subst h1
+    refine ⟨?_, hmiss, h2, h3, h4, h5⟩
+    simp only
+    rw [h6]
+    exact hbr
+
+/-! ### the statements carried by the structural induction -/
+
+/-- a static child: its prefix is compared first -/
+def StaticStmt (path m : Str) (D : Nat) (toks : List Tok) (ch : Node) : Prop :=
+  ∀ (st : St) (bl : Spec.Best) (d F : Nat), Ok D toks st → BRel D st.best bl → DepthLe (below ch) d → d < F →
+    if ch.pre.isPrefixOf (path.drop st.si) = true then
+      RRel D st (findNode path m ch st)
+        (search m F (below ch) ((path.drop st.si).drop ch.pre.length) (valsOf st) bl)
+    else findNode path m ch st = (st, .leave)
+
+/-- the param child: entered after the value was stored -/
+def ParamStmt (path m : Str) (D : Nat) (toks : List Tok) (ch : Node) : Prop :=
+  ∀ (st0 st : St) (bl : Spec.Best) (d F : Nat), Entered .param ch.pre st0 st → Ok D (toks ++ [.param]) st →
+    BRel D st.best bl → DepthLe (below ch) d → d < F →
+    RRel D st0 (findNode path m ch st) (search m F (below ch) (path.drop st.si) (valsOf st) bl)
+
+theorem depthLe_prepend {ts : List Tok} {r : R} {d : Nat} (h : DepthLe (prepend ts r) d) :
+    DepthLe r (d - ts.length) := by
+  intro x hx
+  have : (ts ++ x.1, x.2) ∈ prepend ts r := List.mem_map.mpr ⟨x, hx, rfl⟩
+  have := h _ this
+  simp at this
+  omega
+
+theorem prepend_length_le {ts : List Tok} {r : R} {d : Nat} (h : DepthLe (prepend ts r) d) (hr : r ≠ []) :
+    ts.length ≤ d := by
+  cases r with
+  | nil => exact absurd rfl hr
+  | cons x xs =>
+    have : (ts ++ x.1, x.2) ∈ prepend ts (x :: xs) := List.mem_map.mpr ⟨x, List.mem_cons_self, rfl⟩
+    have := h _ this
+    simp at this
+    omega
+
+/-- (2): the Static block against `litStep` -/
+theorem static_rel (path m : Str) {D : Nat} {above : List Tok} {k pre ms nf op pc sts pa an}
+    (h : tiNode D above (.mk k pre ms nf op pc sts pa an) = true)
+    (st : St) (bl : Spec.Best) (d F : Nat) (hok : Ok D (above ++ headToks k pre) st) (hb : BRel D st.best bl)
+    (hd : DepthLe (below (.mk k pre ms nf op pc sts pa an)) (d + 1)) (hF : d < F)
+    (ih : ∀ ch ∈ sts, StaticStmt path m D (above ++ headToks k pre) ch) :
+    let S := (match path.drop st.si with
+              | c :: _ => staticBlock (findStatic path m c sts st) st
+              | [] => (st, Next.param))
+    let L := litStep (fun r' rest' b => search m F r' rest' (valsOf st) b)
+              (below (.mk k pre ms nf op pc sts pa an)) (path.drop st.si) bl
+    BRel D S.1.best L.2 ∧
+      ((∃ rm, S.2 = .hit rm ∧ HitRel S.1 rm L.1) ∨ (S.2 = .param ∧ L.1 = .miss ∧ Same S.1 st)) := by
+  have p := tiNode_parts h
+  cases hrest : path.drop st.si with
+  | nil =>
+    simp only [litStep]
+    refine ⟨hb, Or.inr ⟨?_, ?_, Same.refl _⟩⟩ <;> first | rfl | trivial
+  | cons c rest' =>
+    simp only [litStep, deriv_lit_below c h, findStatic_eq_pick]
+    cases hpick : pick c sts with
+    | none =>
+      simp only [Option.map_none, staticBlock, List.isEmpty_nil, if_true]
+      refine ⟨hb, Or.inr ⟨?_, ?_, Same.refl _⟩⟩ <;> first | rfl | trivial
+    | some ch =>
+      obtain ⟨hmem, hlabel⟩ := pick_mem hpick
+      obtain ⟨hk, hpne, hch⟩ := tiList_mem p.kids hmem
+      obtain ⟨c0, tail, _, hpre⟩ := headToks_static_ne_nil hpne
+      have hc0 : c0 = c := by simpa [Node.label, hpre] using hlabel
+      subst hc0
+      have hbne : below ch ≠ [] := below_ne_nil D _ ch hch
+      have hrne : (residFrom (ch.pre.tail) ch).isEmpty = false := by
+        have := prepend_ne_nil (ts := lits ch.pre.tail) hbne
+        unfold residFrom
+        cases hh : prepend (lits ch.pre.tail) (below ch) with
+        | nil => exact absurd hh this
+        | cons _ _ => rfl
+      simp only [Option.map_some, hrne, Bool.false_eq_true, if_false]
+      -- depth of the edge to the child
+      have hdd : DepthLe (residFrom ch.pre.tail ch) d := by
+        have := depthLe_deriv (.lit c0) hd
+        rw [deriv_lit_below c0 h, hpick] at this
+        exact this
+      have htl : tail.length ≤ d := by
+        have := prepend_length_le (ts := lits ch.pre.tail) hdd hbne
+        simpa [lits, hpre] using this
+      have hdch : DepthLe (below ch) (d - tail.length) := by
+        have := depthLe_prepend (ts := lits ch.pre.tail) hdd
+        simpa [lits, hpre] using this
+      -- bring the fuel into the shape of the edge lemma
+      have hfuel : search m F (residFrom ch.pre.tail ch) rest' (valsOf st) bl
+          = search m ((F - tail.length) + tail.length) (residFrom tail ch) rest' (valsOf st) bl := by
+        rw [hpre]
+        simp only [List.tail_cons]
+        have : F - tail.length + tail.length = F := by omega
+        rw [this]
+      rw [hfuel, search_edge]
+      -- the child's statement
+      have hst := ih ch hmem st bl (d - tail.length) (F - tail.length) hok hb hdch (by omega)
+      rw [hrest, hpre] at hst
+      simp only [List.isPrefixOf, beq_self_eq_true, Bool.true_and, List.length_cons, List.drop_succ_cons] at hst
+      by_cases hpfx : tail.isPrefixOf rest' = true
+      · simp only [hpfx, if_true] at hst ⊢
+        generalize findNode path m ch st = x at hst
+        obtain ⟨st', r⟩ := x
+        obtain ⟨hbr, hm⟩ := hst
+        cases r with
+        | hit rm =>
+          simp only [staticBlock]
+          exact ⟨hbr, Or.inl ⟨rm, rfl, hm⟩⟩
+        | leave =>
+          simp only [staticBlock, hk, nextAfter]
+          simp only at hm
+          obtain ⟨hmiss, hnp, hsi, hpi, hpv⟩ := hm
+          refine ⟨hbr, Or.inr ⟨?_, hmiss, hsi, hpi, hpv, hnp.trans hok.np.symm⟩⟩
+          first | rfl | trivial
+      · simp only [hpfx, Bool.false_eq_true, if_false] at hst ⊢
+        rw [hst]
+        simp only [staticBlock, hk, nextAfter]
+        refine ⟨?_, Or.inr ⟨?_, ?_, Same.refl _⟩⟩
+        · split <;> exact hb
+        · first | rfl | trivial
+        · split <;> rfl
+
+theorem paramValue_length (leaf : Bool) (rest : Str) :
+    (paramValue leaf rest).length = (if leaf then rest.length else (rest.takeWhile (· ≠ '/')).length) := by
+  unfold paramValue
+  cases leaf <;> simp
+
+theorem enterParam_eq (path : Str) (leaf : Bool) (st : St) (hlt : st.pi < st.pv.length)
+    (hnp : st.panicked = false) :
+    enterParam path leaf st = entered st (paramValue leaf (path.drop st.si)) st.best := by
+  have hset : ∀ v, setVal st (st.pi : Int) v = { st with pv := st.pv.set st.pi v } := by
+    intro v
+    unfold setVal
+    simp only [Int.toNat_natCast]
+    rw [if_neg (by omega)]
+  have htake : (path.drop st.si).take (paramValue leaf (path.drop st.si)).length
+      = paramValue leaf (path.drop st.si) := by
+    rw [paramValue_length]; exact enterParam_value leaf _
+  unfold enterParam
+  simp only [hset, ← paramValue_length]
+  simp [entered, hnp, htake]
+
+/-- (3): the Param block against `paramStep` -/
+theorem param_rel (path m : Str) {D : Nat} {above : List Tok} {k pre ms nf op pc sts pa an}
+    (h : tiNode D above (.mk k pre ms nf op pc sts pa an) = true)
+    (st : St) (bl : Spec.Best) (d F : Nat) (hok : Ok D (above ++ headToks k pre) st) (hb : BRel D st.best bl)
+    (hd : DepthLe (below (.mk k pre ms nf op pc sts pa an)) (d + 1)) (hF : d < F)
+    (hne : (path.drop st.si).isEmpty = false)
+    (ih : ∀ ch, pa = some ch → ParamStmt path m D (above ++ headToks k pre) ch) :
+    let S := paramBlock (findParam path m pa st) st
+    let L := paramStep (fun r' rest' vals' b => search m F r' rest' vals' b)
+              (below (.mk k pre ms nf op pc sts pa an)) (path.drop st.si) (valsOf st) bl
+    BRel D S.1.best L.2 ∧
+      ((∃ rm, S.2 = .hit rm ∧ HitRel S.1 rm L.1) ∨ (S.2 = .any ∧ L.1 = .miss ∧ Same S.1 st)) := by
+  have p := tiNode_parts h
+  simp only [paramStep, deriv_param_below h, hne, Bool.false_eq_true, false_or]
+  cases pa with
+  | none =>
+    rw [findParam]
+    simp only [paramBlock, belowOf, List.isEmpty_nil, if_true]
+    refine ⟨hb, Or.inr ⟨?_, ?_, Same.refl _⟩⟩ <;> first | rfl | trivial
+  | some ch =>
+    obtain ⟨hkp, hch⟩ := tiOpt_some p.kidP
+    obtain ⟨ck, cpre, cms, cnf, cop, cpc, csts, cpa, can⟩ := ch
+    simp only [Node.kind] at hkp
+    subst hkp
+    have q := tiNode_parts hch
+    have hbne : below (.mk .param cpre cms cnf cop cpc csts cpa can) ≠ [] := below_ne_nil D _ _ hch
+    have hbe : (below (.mk .param cpre cms cnf cop cpc csts cpa can)).isEmpty = false := by
+      cases hh : below (.mk .param cpre cms cnf cop cpc csts cpa can) with
+      | nil => exact absurd hh hbne
+      | cons _ _ => rfl
+    have harity : arity ((above ++ headToks k pre) ++ [Tok.param]) = st.pi + 1 := by
+      rw [hok.pi, arity_append]; simp [arity]
+    have hlt : st.pi < st.pv.length := by
+      have h1 : arity ((above ++ headToks k pre) ++ [Tok.param]) ≤ D := q.depth
+      rw [harity] at h1
+      have h2 := hok.len
+      omega
+    rw [findParam]
+    simp only [belowOf, hbe, Bool.false_eq_true, if_false, ← leaf_iff hch, paramBlock]
+    rw [enterParam_eq path _ st hlt hok.np]
+    generalize hv : paramValue (isLeafNode (.mk .param cpre cms cnf cop cpc csts cpa can)) (path.drop st.si) = v
+    -- the entered state
+    have hokE : Ok D ((above ++ headToks k pre) ++ [Tok.param]) (entered st v st.best) := by
+      refine ⟨rfl, ?_, ?_, ?_⟩
+      · show st.pi + 1 = _
+        rw [harity]
+      · show D ≤ (st.pv.set st.pi v).length
+        simpa using hok.len
+      · intro i hi
+        show (st.pv.set st.pi v).getD i [] = []
+        have hi' : st.pi + 1 ≤ i := hi
+        rw [getD_set_ne _ _ _ _ (by omega)]
+        exact hok.blank i (by omega)
+    have hE : Entered .param cpre st (entered st v st.best) :=
+      ⟨v, hlt, hok.blank st.pi (Nat.le_refl _), rfl, rfl, rfl⟩
+    have hdch : DepthLe (below (.mk .param cpre cms cnf cop cpc csts cpa can)) d := by
+      have := depthLe_deriv .param hd
+      rw [deriv_param_below h] at this
+      exact this
+    have hst := ih _ rfl st (entered st v st.best) bl d F hE hokE hb hdch hF
+    have hdrop : path.drop (entered st v st.best).si = (path.drop st.si).drop v.length := by
+      simp [entered, List.drop_drop, Nat.add_comm]
+    rw [hdrop, valsOf_entered _ _ _ hlt] at hst
+    generalize findNode path m (.mk .param cpre cms cnf cop cpc csts cpa can) (entered st v st.best) = x at hst
+    obtain ⟨st', r⟩ := x
+    obtain ⟨hbr, hm⟩ := hst
+    cases r with
+    | hit rm => exact ⟨hbr, Or.inl ⟨rm, rfl, hm⟩⟩
+    | leave =>
+      simp only at hm
+      obtain ⟨hmiss, hnp, hsi, hpi, hpv⟩ := hm
+      refine ⟨hbr, Or.inr ⟨?_, hmiss, hsi, hpi, hpv, hnp.trans hok.np.symm⟩⟩
+      first | rfl | trivial
+
+/-! ### one node -/
+
+/-- the part of `findNode` after the prefix comparison -/
+def bodyOf (path m : Str) (k : Kind) (pre : Str) (ms : List (Str × RouteMethod)) (nf : Option RouteMethod)
+    (op : Str) (sts : List Node) (pa an : Option Node) (st : St) : St × Router.Res :=
+  match nodeEnd m ms nf op (path.drop st.si).isEmpty st with
+  | (st, some rm) => (st, .hit rm)
+  | (st, none) =>
+    match (match path.drop st.si with
+           | c :: _ => staticBlock (findStatic path m c sts st) st
+           | [] => (st, Next.param)) with
+    | (st, .param) =>
+      if (path.drop st.si).isEmpty then finishNode path m k pre.length an st .any
+      else
+        match paramBlock (findParam path m pa st) st with
+        | (st, nx) => finishNode path m k pre.length an st nx
+    | (st, nx) => finishNode path m k pre.length an st nx
+
+theorem findNode_unfold (path m : Str) (k pre ms nf op pc sts pa an) (st : St) :
+    findNode path m (.mk k pre ms nf op pc sts pa an) st =
+      if st.panicked then (st, .leave) else
+      if (if k = .static then lcp (path.drop st.si) pre else 0) ≠ (if k = .static then pre.length else 0)
+      then (st, .leave)
+      else bodyOf path m k pre ms nf op sts pa an
+        { st with si := st.si + (if k = .static then lcp (path.drop st.si) pre else 0) } := by
+  rw [findNode]
+  rfl
+
+theorem nodeEnd_some {m : Str} {ms : List (Str × RouteMethod)} {nf : Option RouteMethod} {op : Str}
+    {atEnd : Bool} {st : St} {rm : RouteMethod} (h : (nodeEnd m ms nf op atEnd st).2 = some rm) :
+    (m, rm) ∈ ms ∨ nf = some rm := by
+  simp only [nodeEnd] at h
+  split at h
+  · split at h
+    · exact Or.inl (findMethod_mem h)
+    · exact Or.inr h
+  · simp at h
+
+theorem orElse_hit_eq (e : Entry) (v : List Str) (b : Spec.Best) (k : Spec.Best → Spec.Res × Spec.Best) :
+    orElse (Spec.Res.hit e v, b) k = (Spec.Res.hit e v, b) := rfl
+theorem orElse_miss_eq (b : Spec.Best) (k : Spec.Best → Spec.Res × Spec.Best) :
+    orElse (Spec.Res.miss, b) k = k b := rfl
+
+theorem search_succ (m : Str) (fuel : Nat) (r : R) (path : Str) (vals : List Str) (best : Spec.Best) :
+    search m (fuel + 1) r path vals best =
+      match stepEnd m (ends r) path best with
+      | (some e, best) => (.hit e vals, best)
+      | (none, best) =>
+        orElse (litStep (fun r' rest b => search m fuel r' rest vals b) r path best) fun best =>
+        orElse (paramStep (fun r' rest vals' b => search m fuel r' rest vals' b) r path vals best) fun best =>
+        anyStep m r path vals best := by
+  rw [search]
+  rfl
+
+/-- **one node**: the body of `findNode` against one step of the reference search -/
+theorem body_rel (path m : Str) {D : Nat} {above : List Tok} {k pre ms nf op pc sts pa an}
+    (h : tiNode D above (.mk k pre ms nf op pc sts pa an) = true)
+    (st0 st : St) (bl : Spec.Best) (d F : Nat) (hE : Entered k pre st0 st)
+    (hok : Ok D (above ++ headToks k pre) st) (hb : BRel D st.best bl)
+    (hd : DepthLe (below (.mk k pre ms nf op pc sts pa an)) d) (hF : d < F)
+    (ihS : ∀ ch ∈ sts, StaticStmt path m D (above ++ headToks k pre) ch)
+    (ihP : ∀ ch, pa = some ch → ParamStmt path m D (above ++ headToks k pre) ch) :
+    RRel D st0 (bodyOf path m k pre ms nf op sts pa an st)
+      (search m F (below (.mk k pre ms nf op pc sts pa an)) (path.drop st.si) (valsOf st) bl) := by
+  have p := tiNode_parts h
+  rw [search_fuel m d F (d + 2) _ _ _ _ hd hF (by omega)]
+  have hd1 : DepthLe (below (.mk k pre ms nf op pc sts pa an)) (d + 1) := depthLe_mono hd (by omega)
+  rw [show d + 2 = (d + 1) + 1 from rfl, search_succ, ends_below h]
+  have hne := nodeEnd_rel D m ms nf op (path.drop st.si) st bl p.noNf
+    (fun rm hrm => by rw [(p.nfRec rm hrm).2]; exact p.depth) hb
+  have hsome := @nodeEnd_some m ms nf op (path.drop st.si).isEmpty st
+  unfold bodyOf
+  generalize nodeEnd m ms nf op (path.drop st.si).isEmpty st = X at hne hsome ⊢
+  generalize stepEnd m (ownEntries ms nf) (path.drop st.si) bl = Y at hne ⊢
+  obtain ⟨st1, e3⟩ := X
+  obtain ⟨e1, b1⟩ := Y
+  simp only at hne hsome
+  obtain ⟨hb1, hst1, he1⟩ := hne
+  have hs1 : Same st1 st := by rw [hst1]; exact ⟨rfl, rfl, rfl, rfl⟩
+  have hok1 : Ok D (above ++ headToks k pre) st1 := hs1.ok hok
+  cases e3 with
+  | some rm =>
+    simp only [Option.map_some] at he1
+    subst he1
+    simp only
+    refine ⟨hb1, hok1.np, ?_, ?_, (if ms.isEmpty then routeNotFound else m), ?_⟩
+    · rw [hok1.pi]
+      rcases hsome rfl with hm | hn
+      · exact ((p.recs _ hm).2).symm
+      · exact ((p.nfRec rm hn).2).symm
+    · have h1 := p.depth
+      have h2 := hok1.len
+      show st1.pi ≤ st1.pv.length
+      rw [hok1.pi]; omega
+    · rw [hs1.vals]
+  | none =>
+    simp only [Option.map_none] at he1
+    subst he1
+    simp only
+    have hS := static_rel path m h st1 b1 d (d + 1) hok1 hb1 hd1 (by omega) ihS
+    simp only [hs1.vals, hs1.1] at hS
+    rw [hs1.1]
+    generalize (match path.drop st.si with
+              | c :: _ => staticBlock (findStatic path m c sts st1) st1
+              | [] => (st1, Next.param)) = S at hS ⊢
+    generalize litStep (fun r' rest' b => search m (d + 1) r' rest' (valsOf st) b)
+      (below (.mk k pre ms nf op pc sts pa an)) (path.drop st.si) b1 = L at hS ⊢
+    obtain ⟨st2, nx2⟩ := S
+    obtain ⟨resL, b2⟩ := L
+    simp only at hS
+    obtain ⟨hb2, hcase⟩ := hS
+    rcases hcase with ⟨rm, hnx, hhit⟩ | ⟨hnx, hmiss, hs2⟩
+    · subst hnx
+      obtain ⟨h1, h2, h3, mm, h4⟩ := hhit
+      subst h4
+      simp only [orElse_hit_eq, finishNode]
+      exact ⟨hb2, h1, h2, h3, mm, rfl⟩
+    · subst hnx hmiss
+      simp only [orElse_miss_eq]
+      have hs2' : Same st2 st := hs2.trans hs1
+      have hok2 : Ok D (above ++ headToks k pre) st2 := hs2'.ok hok
+      rw [hs2'.1]
+      by_cases hemp : (path.drop st.si).isEmpty = true
+      · simp only [hemp, if_true]
+        have hP : paramStep (fun r' rest' vals' b => search m (d + 1) r' rest' vals' b)
+            (below (.mk k pre ms nf op pc sts pa an)) (path.drop st.si) (valsOf st) b2 = (.miss, b2) := by
+          simp [paramStep, hemp]
+        rw [hP, orElse_miss_eq]
+        have := finish_any_rel path m h st0 st2 b2 (hs2'.entered hE) hok2 hb2
+        rw [hs2'.1, hs2'.vals] at this
+        exact this
+      · have hemp' : (path.drop st.si).isEmpty = false := by simpa using hemp
+        simp only [hemp', Bool.false_eq_true, if_false]
+        have hPr := param_rel path m h st2 b2 d (d + 1) hok2 hb2 hd1 (by omega)
+          (by rw [hs2'.1]; exact hemp') ihP
+        simp only [hs2'.vals, hs2'.1] at hPr
+        generalize paramBlock (findParam path m pa st2) st2 = P at hPr ⊢
+        generalize paramStep (fun r' rest' vals' b => search m (d + 1) r' rest' vals' b)
+          (below (.mk k pre ms nf op pc sts pa an)) (path.drop st.si) (valsOf st) b2 = Q at hPr ⊢
+        obtain ⟨st3, nx3⟩ := P
+        obtain ⟨resP, b3⟩ := Q
+        simp only at hPr
+        obtain ⟨hb3, hcase3⟩ := hPr
+        rcases hcase3 with ⟨rm, hnx, hhit⟩ | ⟨hnx, hmiss, hs3⟩
+        · subst hnx
+          obtain ⟨h1, h2, h3, mm, h4⟩ := hhit
+          subst h4
+          simp only [orElse_hit_eq, finishNode]
+          exact ⟨hb3, h1, h2, h3, mm, rfl⟩
+        · subst hnx hmiss
+          simp only [orElse_miss_eq]
+          have hs3' : Same st3 st := hs3.trans hs2'
+          have := finish_any_rel path m h st0 st3 b3 (hs3'.entered hE) (hs3'.ok hok) hb3
+          rw [hs3'.1, hs3'.vals] at this
+          exact this
+
+theorem arity_static (toks : List Tok) (pre : Str) : arity (toks ++ headToks .static pre) = arity toks := by
+  simp [headToks, arity_append, arity_lits]
+
+/- the structural induction over the tree -/
+mutual
+theorem node_ok (path m : Str) (D : Nat) : (n : Node) → (toks : List Tok) → tiNode D toks n = true →
+    (n.kind = .static → StaticStmt path m D toks n) ∧ (n.kind = .param → ParamStmt path m D toks n)
+  | .mk k pre ms nf op pc sts pa an, toks, h => by
+    have p := tiNode_parts h
+    have ihS : ∀ ch ∈ sts, StaticStmt path m D (toks ++ headToks k pre) ch :=
+      list_ok path m D sts (toks ++ headToks k pre) p.kids
+    have ihP : ∀ ch, pa = some ch → ParamStmt path m D (toks ++ headToks k pre) ch :=
+      opt_ok path m D pa (toks ++ headToks k pre) p.kidP
+    constructor
+    · intro hk
+      simp only [Node.kind] at hk
+      subst hk
+      intro st bl d F hok hb hd hF
+      rw [findNode_unfold]
+      simp only [hok.np, Bool.false_eq_true, if_false, if_true, Node.pre, ne_eq]
+      by_cases hpfx : pre.isPrefixOf (path.drop st.si) = true
+      · have hl : lcp (path.drop st.si) pre = pre.length := (lcp_eq_length_iff _ _).mpr hpfx
+        simp only [hpfx, if_true, hl, not_true_eq_false, if_false]
+        have hE : Entered .static pre st { st with si := st.si + pre.length } := ⟨rfl, rfl, rfl⟩
+        have hok' : Ok D (toks ++ headToks .static pre) { st with si := st.si + pre.length } :=
+          ⟨hok.np, by rw [arity_static]; exact hok.pi, hok.len, hok.blank⟩
+        have := body_rel path m h st { st with si := st.si + pre.length } bl d F hE hok' hb hd hF ihS ihP
+        have hdrop : path.drop (st.si + pre.length) = (path.drop st.si).drop pre.length := by
+          rw [List.drop_drop]
+        have hv : valsOf { st with si := st.si + pre.length } = valsOf st := rfl
+        simp only [hdrop, hv, hok.np] at this
+        exact this
+      · have hl : lcp (path.drop st.si) pre ≠ pre.length := fun h => hpfx ((lcp_eq_length_iff _ _).mp h)
+        simp only [hpfx, Bool.false_eq_true, if_false, hl, not_false_eq_true, if_true]
+    · intro hk
+      simp only [Node.kind] at hk
+      subst hk
+      intro st0 st bl d F hE hok hb hd hF
+      rw [findNode_unfold]
+      simp only [hok.np, Bool.false_eq_true, if_false, reduceCtorEq, ne_eq, not_true_eq_false, Nat.add_zero]
+      have hst : ({ si := st.si, pi := st.pi, pv := st.pv, best := st.best } : St) = st := by
+        have := hok.np
+        cases st
+        simp_all
+      rw [hst]
+      exact body_rel path m h st0 st bl d F hE hok hb hd hF ihS ihP
+theorem list_ok (path m : Str) (D : Nat) : (l : List Node) → (toks : List Tok) → tiList D toks l = true →
+    ∀ ch ∈ l, StaticStmt path m D toks ch
+  | [], _, _ => by intro ch hm; simp at hm
+  | c :: cs, toks, h => by
+    obtain ⟨hk, _, hc, hcs⟩ := tiList_cons h
+    intro ch hm
+    rcases List.mem_cons.mp hm with heq | hm'
+    · rw [heq]; exact (node_ok path m D c toks hc).1 hk
+    · exact list_ok path m D cs toks hcs ch hm'
+theorem opt_ok (path m : Str) (D : Nat) : (o : Option Node) → (toks : List Tok) → tiOpt D toks .param o = true →
+    ∀ ch, o = some ch → ParamStmt path m D toks ch
+  | none, _, _ => by intro ch he; simp at he
+  | some c, toks, h => by
+    obtain ⟨hk, hc⟩ := tiOpt_some h
+    intro ch he
+    simp only [Option.some.injEq] at he
+    rw [← he]
+    exact (node_ok path m D c toks hc).2 hk
+end
 
 end Router.Tree
